@@ -259,6 +259,15 @@ theorem input_kinds_equivalent {α} (f : Iso.Bytes → Py.R α) (t : List Nat) (
     rw [List.any_eq_false]; intro c hc; have := h c hc; simp; omega
   simp [takesAscii, this]
 
+/-- the same about the TRANSLATED `_takes_ascii` (`Gen.takesAscii`, re-translated from isoparser.py on every run; the
+    only trusted part is the primitive `readAll`: a stream delivers everything from its current position) -/
+theorem input_kinds_equivalent_gen {α} (f : Iso.Bytes → Py.R α) (t : List Nat) (h : ∀ c ∈ t, c < 128) :
+    Gen.takesAscii f (.str t) = f t ∧ Gen.takesAscii f (.bytes t) = f t ∧
+    Gen.takesAscii f (.streamStr t) = f t ∧ Gen.takesAscii f (.streamBytes t) = f t := by
+  obtain ⟨h1, h2, h3, h4⟩ := input_kinds_equivalent f t h
+  exact ⟨by rw [← h1]; exact IsoGen.takesAscii_eq f (.str t), by rw [← h2]; exact IsoGen.takesAscii_eq f (.bytes t),
+    by rw [← h3]; exact IsoGen.takesAscii_eq f (.streamStr t), by rw [← h4]; exact IsoGen.takesAscii_eq f (.streamBytes t)⟩
+
 /-! non-vacuity: concrete forms with well-formed fields -/
 example : WFields ⟨.weekExtD, .hmsfExt false, .hhcmm, 84⟩
     { year := 2020, a := 53, b := 4, hh := 23, mm := 59, ss := 59, frac := [1,2,3,4,5,6,7], neg := true, oh := 23, om := 59 } := by
